@@ -1,5 +1,5 @@
 (* C08 — no input makes parsing or reading fail with a foreign exception or hang. *)
-From PyUbx Require Import Base Bytes Frame Types Walk Tables Msg Reader Reader_generic Reader_file Exn_lemmas C08_lemmas.
+From PyUbx Require Import Base Bytes Frame Types Walk Tables Msg Reader Socket Reader_generic Reader_file Socket_lemmas Exn_lemmas C08_lemmas.
 Open Scope N_scope.
 
 (* for every byte string, msgmode, validate and bitfield setting, with the shipped tables: parse returns a
@@ -45,3 +45,11 @@ Theorem C08_read_raise_family : forall (P : Type) (parse : N -> bytes -> result 
   is_protocol_exn x = true /\ quitonerror c = 2.
 Proof. exact @c08_read_raise_family. Qed.
 Print Assumptions C08_read_raise_family.
+
+(* iteration over a SOCKET terminates too: for every schedule of recv() results whose failures (close, timeout,
+   OSError) come after the last data, every configuration and parser behaviour, the loop bound
+   |bytes the socket will deliver| + 1 is never exhausted *)
+Theorem C08_sock_terminates : forall (P : Type) (parse : N -> bytes -> result P) (nmea_hdr : N -> bool) c l,
+  tail_fail l -> out_of_fuel (sock_run parse nmea_hdr c l) = false.
+Proof. exact @c08_sock_terminates. Qed.
+Print Assumptions C08_sock_terminates.
